@@ -35,3 +35,111 @@ Theorem c11_validators_decide : forall d s,
   (valid_id_b s = true <-> ValidId s).
 Proof. intros d s. exact (conj (nodup_b_iff (ids d)) (conj (refs_resolve_b_iff d) (valid_id_b_iff s))). Qed.
 Print Assumptions c11_validators_decide.
+
+(* the closure loop of copySBOMElements is run with fuel |relationships|+1 and
+   never exhausts it; Generate as a whole never answers OutOfFuel, so no theorem
+   below holds for lack of fuel *)
+Theorem c11_copy_never_out_of_fuel : forall rels todo0, NoDup todo0 ->
+  closure (closure_fuel rels) rels 0 todo0 <> OutOfFuel.
+Proof. exact closure_never_out_of_fuel. Qed.
+Print Assumptions c11_copy_never_out_of_fuel.
+
+Theorem c11_generate_never_out_of_fuel : forall perm g, generate perm g <> OutOfFuel.
+Proof. exact generate_fuel. Qed.
+Print Assumptions c11_generate_never_out_of_fuel.
+
+(* every relationship end and the described id is the id of a package of the
+   document — for installed sets none of whose apks carries an embedded SBOM *)
+Theorem c11_refs_resolve : forall perm g d, NoEmbedded g -> generate perm g = Ok d -> RefsResolve d.
+Proof. exact generate_plain_refs. Qed.
+Print Assumptions c11_refs_resolve.
+
+(* FULL STATEMENT (false): forall perm g d, generate perm g = Ok d -> RefsResolve d.
+   Refuted with embedded SBOMs that are themselves well-formed and give every
+   apk exactly one target: the first package carrying the apk's name already is
+   the imported element, replacePackage(id, id) deletes it, references dangle
+   (finding C11-F2; the witness is replayed on the real code by the harness
+   corpus, class corpus/replace-self).
+   MISSING from the partial above: documents with embedded SBOMs whose target ids
+   do not yet occur in the document (stated in notes/C11.md, not proved). *)
+Theorem c11_replace_self_refuted : exists g d,
+  (forall k e, In (k, FDoc e) (g_fs g) -> RefsResolve e /\ IdsUnique e /\ Forall ValidId (ids e)) /\
+  (forall a, In a (g_apks g) -> forall e, locate (g_fs g) (candidates (a_name a) (a_version a)) = Some (FDoc e) ->
+     List.length (targets (a_name a) e) = 1%nat) /\
+  generate (fun l => l) g = Ok d /\ ~ RefsResolve d /\
+  In (p_id bar_elem) (List.map r_related (d_rels d)) /\ ~ In (p_id bar_elem) (ids d).
+Proof. exact replace_self_refuted. Qed.
+Print Assumptions c11_replace_self_refuted.
+
+(* without embedded SBOMs, and provided no two of the identifiers Generate mints
+   (image, layers, source, one per installed "name-version") coincide, the
+   document's packages are exactly the structural elements followed by one
+   element per installed apk, in order, each with the apk's name, version and
+   checksum, and nothing else *)
+Theorem c11_one_per_apk_partial : forall perm g d,
+  NoEmbedded g -> NoDup (List.map p_id (own_elements g)) -> generate perm g = Ok d ->
+  d_pkgs d = d_pkgs (base_doc g) ++ List.map (apk_package (nonce_of g)) (g_apks g) /\
+  MatchesInstalled (g_apks g) (List.map (apk_package (nonce_of g)) (g_apks g)).
+Proof. exact generate_one_per_apk. Qed.
+Print Assumptions c11_one_per_apk_partial.
+
+(* FULL STATEMENT (false): the same without the NoDup hypothesis, for installed
+   sets with pairwise distinct (name, version).  string_to_identifier is not
+   injective (gtk+ and gtkC43 both give gtkC43), the two apks share an id and
+   the final de-duplication drops the second element (finding C11-F1; replayed
+   by the harness corpus, class corpus/id-collision). *)
+Theorem c11_one_per_apk_refuted : exists g, NoEmbedded g /\
+  NoDup (List.map (fun a => (a_name a, a_version a)) (g_apks g)) /\
+  forall perm, exists d, generate perm g = Ok d /\
+    exists a, In a (g_apks g) /\ forall p, In p (d_pkgs d) -> ~ ElemOf a p.
+Proof. exact one_per_apk_refuted. Qed.
+Print Assumptions c11_one_per_apk_refuted.
+
+(* the image element carries the digest handed in as its name and (without the
+   sha256: prefix) as its checksum and is the described element; every layer
+   digest handed in names an element.  C06/C12 say those digests are the real
+   ones; pkg/build/sbom.go passes the manifest's descriptors and img.Digest(). *)
+Theorem c11_digests : forall perm g d, NoEmbedded g -> generate perm g = Ok d ->
+  (g_image g <> "" -> DescribesImage (g_image g) d) /\
+  (NoDup (ids (base_doc g)) -> NamesLayers (g_layers g) d).
+Proof. exact generate_plain_digests. Qed.
+Print Assumptions c11_digests.
+
+(* the index document: its references resolve — the relationship source is
+   stringToIdentifier(indexPackage.ID), which is the package's id because the
+   function is idempotent — and it names the index and every image by digest *)
+Theorem c11_index_refs_resolve : forall x d, generate_index x = Ok d -> RefsResolve d.
+Proof. exact generate_index_refs. Qed.
+Print Assumptions c11_index_refs_resolve.
+
+Theorem c11_index_digests : forall x d, generate_index x = Ok d ->
+  (exists p, In p (d_pkgs d) /\ p_name p = hash_string (x_index x) /\
+             p_sums p = [("SHA256", snd (x_index x))] /\ d_desc d = [p_id p]) /\
+  (forall h, In h (x_images x) -> exists p, In p (d_pkgs d) /\ p_sums p = [("SHA256", snd h)] /\
+             In {| r_elem := p_id (index_package (x_index x)); r_type := "VARIANT_OF"; r_related := p_id p |} (d_rels d)).
+Proof. exact generate_index_digests. Qed.
+Print Assumptions c11_index_digests.
+
+(* non-vacuity: a two-layer image with a source url and two installed apks meets
+   every hypothesis above and yields the expected six elements *)
+Definition ex_g : gen_in :=
+  {| g_image := "sha256:ab"; g_layers := [("sha256", "c1"); ("sha256", "c2")]; g_osver := "3.19";
+     g_vcs := "https://github.com/o/r@abc";
+     g_apks := [ {| a_name := "musl"; a_version := "1.2.2-r7"; a_sum := [13; 230]%N |};
+                 {| a_name := "libstdc++"; a_version := "13.2-r0"; a_sum := [1]%N |} ];
+     g_fs := [] |}.
+Example c11_example : NoEmbedded ex_g /\ NoDup (List.map p_id (own_elements ex_g)) /\ NoDup (ids (base_doc ex_g)) /\
+  exists d, generate (fun l => l) ex_g = Ok d /\ List.length (d_pkgs d) = 6%nat /\
+    In "SPDXRef-Package-SPDXRef-Package-sha256-ab-libstdcC43C43-13.2-r0" (ids d).
+Proof.
+  split; [intros a _; reflexivity|]. split; [apply nodup_b_iff; vm_compute; reflexivity|].
+  split; [apply nodup_b_iff; vm_compute; reflexivity|].
+  eexists. split; [vm_compute; reflexivity|]. split; [reflexivity|]. apply mem_In. vm_compute. reflexivity.
+Qed.
+(* an embedded SBOM inside the envelope of the model: copied, the apk's own element replaced *)
+Example c11_example_embedded : exists d,
+  generate (fun l => l) {| g_image := "sha256:ab"; g_layers := [("sha256", "c1")]; g_osver := "1"; g_vcs := "";
+    g_apks := [ {| a_name := "foo"; a_version := "1.0-r0"; a_sum := [1]%N |} ];
+    g_fs := [("foo-1.0.spdx.json", FDoc foo_sbom)] |} = Ok d /\
+  RefsResolve d /\ ids d = ["SPDXRef-Package-sha256-ab"; "SPDXRef-Package-sha256-c1"; p_id foo_elem; p_id bar_elem].
+Proof. eexists. split; [vm_compute; reflexivity|]. split; [apply refs_resolve_b_iff; vm_compute; reflexivity | reflexivity]. Qed.
